@@ -55,12 +55,15 @@ Definition ref_name (f : cfilter) : list str :=
 Definition input_refs (l : list input) : list str := flat_map (fun i => ref_name (i_flt i)) l.
 Definition block_refs (l : list blockdata) : list str := flat_map (fun b => ref_name (bd_flt b)) l.
 
-(* what ValidateFilterRefs appends for g: inputs loop, then block loop *)
+(* what ValidateFilterRefs (as repaired by fixes/C05-filter-ref-on-components.diff)
+   appends for g: the walk over the inputs AND their components (parent
+   first), then the block loop: every filter_ref of the declaration *)
 Definition declared_refs (g : integ) : list str :=
-  input_refs (ig_inputs g) ++ block_refs (ig_block g).
-(* every filter_ref of the declaration, components included *)
-Definition declared_refs_deep (g : integ) : list str :=
   input_refs (all_inputs (ig_inputs g)) ++ block_refs (ig_block g).
+Definition declared_refs_deep (g : integ) : list str := declared_refs g.
+(* what the pass appended BEFORE the repair: top-level inputs only *)
+Definition legacy_declared_refs (g : integ) : list str :=
+  input_refs (ig_inputs g) ++ block_refs (ig_block g).
 
 (* no input has components (Rows.v's domain) *)
 Definition flat (g : integ) : bool := forallb (fun i => is_nil (i_comps i)) (ig_inputs g).
